@@ -5,6 +5,7 @@ from jedi.inference.cache import inference_state_method_cache
 from jedi.inference.filters import DictFilter
 from jedi.inference.names import ValueNameMixin, AbstractNameDefinition
 from jedi.inference.base_value import Value
+from jedi.inference.helpers import values_from_qualified_names
 from jedi.inference.value.module import SubModuleDictMixin
 from jedi.inference.context import NamespaceContext
 
@@ -57,6 +58,10 @@ class ImplicitNamespaceValue(Value, SubModuleDictMixin):
 
     def py__name__(self):
         return '.'.join(self.string_names)
+
+    def py__class__(self):
+        c, = values_from_qualified_names(self.inference_state, 'types', 'ModuleType')
+        return c
 
     def is_namespace(self):
         return True
